@@ -27,7 +27,7 @@ def generate(tier, seed):
     cases = []
     nfit, nrt, nh = (60, 40, 200) if tier == 'quick' else (600, 300, 2500)
     for k in range(nfit):
-        c = fitcase.gen_case(rng, '2d' if k % 4 else '3d', nm=rng.randint(2, 6))
+        c = fitcase.gen_case(rng, '2d' if k % 4 else '3d', nm=rng.randint(2, 6), nb=1 if k % 8 == 4 else None)     # (a single filter is possible for distance-dependent packages)
         nb = len(c['wav'])
         nl = rng.randint(1, 12)
         srcs = []
@@ -47,7 +47,8 @@ def generate(tier, seed):
         c.pop('src')
         c.update(kind='fit', sources=srcs, nmin=nmin, sel=rng.choice(SELS[:7] + [['A', None]]), convolved=rng.random() < 0.5,
                  blank_at=(rng.randint(1, nl) if rng.random() < 0.25 else None))
-        c['bad_at'] = rng.randint(0, nl - 1) if (c['blank_at'] is None and rng.random() < 0.15) else None
+        c['bad_at'] = rng.randint(0, nl - 1) if (c['blank_at'] is None and rng.random() < (0.15 if nb > 1 else 0.6)) else None
+        c['bad_kind'] = rng.choice(['extra_column', 'other_n'])     # one stray column / a line that is well-formed for one band more
         cases.append(c)
     for k in range(nrt):
         n = rng.randint(1, 6)
@@ -92,7 +93,12 @@ def _impl_fit(case):
         if case['blank_at'] is not None:
             lines.insert(case['blank_at'], '')
         if case.get('bad_at') is not None:    # malformed stream: a line whose column count does not fit the layout
-            lines[case['bad_at']] = lines[case['bad_at']] + ' 1.0'
+            if case.get('bad_kind') == 'other_n':
+                sb = case['sources'][case['bad_at'] if case['blank_at'] is None else 0]
+                wide = dict(sb, flags=list(sb['flags']) + [1], flux=list(sb['flux']) + [1.5], err=list(sb['err']) + [0.25])
+                lines[case['bad_at']] = fitcase.make_source(wide).to_ascii()
+            else:
+                lines[case['bad_at']] = lines[case['bad_at']] + ' 1.0'
         data = os.path.join(d, 'data.txt')
         open(data, 'w').write('\n'.join(lines) + '\n')
         nb = len(case['wav'])
